@@ -5,6 +5,7 @@ From Coq Require Import Init.Byte.
 From FFS Require Import Base.Res Base.Bytes Abi.Types Abi.Spec Abi.ModelTypes.
 From FFS Require Import Abi.DecModel Abi.DecSpec Abi.SerModel Abi.SerSpec.
 From FFS Require Import Abi.DecProofs Abi.DecProofs2 Abi.DecProofs3 Abi.DecProofs4.
+From FFS Require Import Abi.Render Abi.SerProofs Abi.SerProofs2 Abi.SerProofs3.
 Import ListNotations.
 Local Open Scope Z_scope.
 
@@ -76,6 +77,48 @@ Theorem C03_decode_call_data :
 Proof. exact DecodeCallData_enc. Qed.
 Print Assumptions C03_decode_call_data.
 
+(* 5. Serialising the tree of a well-typed value to JSON, in every formatting mode (objects, flat
+      arrays, self-describing arrays) with every built-in integer (base-10 string, 0x-hex, JSON
+      number, number-if-fits), byte (hex, 0x-hex, base64) and address (none, 0x, plain, checksum)
+      serializer, succeeds and yields JSON that denotes the same value: [denotes] (Abi/SerSpec.v) reads
+      the document back — integers / bytes / addresses through parsers of the renderings, tuple members
+      under their ABI names (default = decimal index) in object mode, in ABI order in the array modes,
+      with {"name","type","value"} entries whose type label is the canonical ABI type string in the
+      self-describing mode.  [ser_ok]: the component tree is what the type parser builds (consistent,
+      well-formed, canonical suffix literals), has no fixed-point type, and — for object mode only —
+      the effective member names of every tuple are pairwise distinct.  [H] is Keccak-256 (EIP-55). *)
+Theorem C03_serialize_denotes :
+  forall (H : bytes -> bytes), (forall x, length (H x) = 32%nat) ->
+  forall (fs : bfloat -> jv) (s : serializer), ts s <> FormatOther ->
+  forall (c : tcomp) (v : val), ser_ok s c = true -> well_typed (ty_of c) v = true ->
+    exists j, SerializeJSON H fs NumericDefaultNameGenerator s (cv_of c v) = Ok j /\ denotes H s c v j = true.
+Proof. exact serialize_denotes. Qed.
+Print Assumptions C03_serialize_denotes.
+
+(* 5'. ... in particular for the value decoded from a specification encoding. *)
+Theorem C03_decode_then_serialize :
+  forall (H : bytes -> bytes), (forall x, length (H x) = 32%nat) ->
+  forall (fs : bfloat -> jv) (s : serializer), ts s <> FormatOther ->
+  forall (children : list tcomp) (k : bytes) (v : val) (pre post : bytes),
+    let c := TCTuple children k in
+    ser_ok s c = true -> tc_no_zero_len c = true -> well_typed (ty_of c) v = true ->
+    zlen (enc (ty_of c) v) < 2 ^ 32 -> counts_ok v = true ->
+    exists x j, DecodeABIData c (pre ++ enc (ty_of c) v ++ post) (zlen pre) = Ok x /\
+                SerializeJSON H fs NumericDefaultNameGenerator s x = Ok j /\ denotes H s c v j = true.
+Proof. exact decode_then_serialize. Qed.
+Print Assumptions C03_decode_then_serialize.
+
+(* 6. The number-if-fits integer serializer emits a JSON number exactly when |i| <= 2^53 - 1 (the
+      integers every float64 consumer reads back exactly), and then the number token is the decimal
+      text of i; otherwise it emits the base-10 string. *)
+Theorem C03_number_if_fits :
+  forall H fs dn (s : serializer) l e su m n k (i : Z),
+    is_ s = NumberIfFitsOrBase10StringIntSerializer -> (e = EInt \/ e = EUInt) ->
+    SerializeJSON H fs dn s (CV (Some (TCElem e su m n k)) l (GBigInt i)) =
+    Ok (if (Z.abs i <=? 2 ^ 53 - 1) then JNumber (Z_dec i) else JStr (Z_dec i)).
+Proof. exact number_if_fits_serialized. Qed.
+Print Assumptions C03_number_if_fits.
+
 (* non-vacuity: a dynamic tuple inside a fixed array next to a string, named and unnamed members,
    decoded after a selector and before trailing bytes *)
 Example C03_decode_nonvacuous :
@@ -97,3 +140,16 @@ Example C03_dynamic_agree_nonvacuous :
   let c := TCTuple [TCFixedArr 2 (TCTuple [TCElem EUInt [x38] 8 0 []; TCElem EBytes [] 0 0 []] []) []] [] in
   tc_consistent c = true /\ tc_no_zero_len c = true /\ isDynamicType c = true.
 Proof. vm_compute. repeat split. Qed.
+
+(* non-vacuity of the serializer theorem: object mode with a named, an unnamed and an index-named
+   member (distinct effective names "a", "1", "0x"), number-if-fits at the threshold, checksum address *)
+Example C03_serialize_nonvacuous :
+  let H := fun _ : bytes => repeat x00 32 in
+  let s := {| ts := FormatAsObjects; is_ := NumberIfFitsOrBase10StringIntSerializer;
+              bs := HexByteSerializer0xPrefix; ad := Some ChecksumAddrSerializer |} in
+  let c := TCTuple [TCElem EUInt [x36; x34] 64 0 [x61]; TCElem EAddress [] 160 0 [];
+                    TCDynArr (TCElem EInt [x36; x34] 64 0 [x30; x78]) [x30; x78]] [] in
+  let v := VList [VNum 9007199254740992; VNum 255; VList [VNum (-1); VNum 9007199254740991]] in
+  ser_ok s c = true /\ well_typed (ty_of c) v = true /\
+  exists j, SerializeJSON H (fun _ => JNull) NumericDefaultNameGenerator s (cv_of c v) = Ok j /\ denotes H s c v j = true.
+Proof. cbv zeta. split; [vm_compute; reflexivity|]. split; [vm_compute; reflexivity|]. eexists. split; vm_compute; reflexivity. Qed.
